@@ -172,6 +172,7 @@ func init() {
 			}
 			famHist(c, defaultCfg, 12000*c.Scale, 6, "s", false, allButVerrs, "setters", eachState)
 			famEdgeHist(c, defaultCfg, allButVerrs, "edge-pairs", false, eachState)
+			famByteValues(c, allButVerrs, eachState)
 		},
 		rule:   "parse results (WPT + generated inputs, with and without base) and every state of generated setter histories (1-6 of the nine setters, values from component generators); for each state Parse(Href(false)) must succeed and reproduce all 19 observables; distinct = distinct (start, op list); non-trivial = start parsed and at least one setter applied, or parse got past the scheme state",
 		assume: []string{"the two states in which the standard's own algorithms do not round-trip (file URL with first segment X|, file URL with host localhost; both reachable only through the protocol setter) are recognised by shape, accepted only when the extracted Spec's setter steps reach the very same state on the same history, and there the re-parse must differ from the state in exactly that normalisation and nothing else"},
@@ -198,6 +199,7 @@ func init() {
 			}
 			famHist(c, defaultCfg, 10000*c.Scale, 6, "sssr", false, allButVerrs, "setters+resolve", eachState)
 			famEdgeHist(c, defaultCfg, allButVerrs, "edge-pairs", false, eachState)
+			famByteValues(c, allButVerrs, eachState)
 			// the invariant is proved for every configuration satisfying cfg_okm (no lax host parsing, no
 			// skip-trailing-slash, no host functions, closed sets): the relaxing options that qualify
 			for _, name := range []string{"collapse", "skipDrive", "singlePct", "acceptInvalid", "specialAdd", "collapse+skipDrive+singlePct"} {
@@ -326,6 +328,7 @@ func init() {
 			famHist(c, defaultCfg, 25000*c.Scale, 6, "s", false, apiFields, "setters", vsSpec)
 			famEdgeHist(c, defaultCfg, apiFields, "edge-pairs", false, vsSpec)
 			famConfusableSetters(c, vsSpec)
+			famByteValues(c, apiFields, vsSpec)
 		},
 		rule: "the 247 WPT setter vectors (implementation and model against the expected values) + generated setter histories (1-6 setters) + all single and all pairs of 67 edge setter calls, and every setter called with its own getter's current value (alone and after every edge call), on 60 start URLs (41 parsed, 19 obtained by resolving a reference); after every step the implementation is compared with the Coq model and with the extracted Spec transcription of the standard's setter steps on the ten API getters",
 	}
@@ -874,6 +877,30 @@ func famEdgeTwo(c *Ctx, cfg *Cfg, fields []int, fam string,
 }
 
 // specPool hands out Spec drivers to the worker goroutines of a family
+// famByteValues: every setter with every single byte 0x00..0xFF as the only unusual character of an otherwise plain
+// value (alone between two letters, and doubled), on three starts: a character class boundary in any encoder or
+// fast path (0x1F/0x20, 0x7E/0x7F, 0x80, the members of each encode set) is met in isolation
+func famByteValues(c *Ctx, fields []int, each func(d *Driver, cs histCase, h *implHist, steps []Step, start Obs)) {
+	starts := []string{"http://u:p@h:81/a?q#f", "sc://h/p", "file:///x"}
+	c.Pool.Run(256*9*len(starts), func(d *Driver, i int) {
+		b := byte(i % 256)
+		w := (i / 256) % 9
+		st := starts[i/(256*9)]
+		v := "a" + string([]byte{b}) + "b"
+		if w == 5 {
+			v = "8" + string([]byte{b}) + "1" // port
+		}
+		if w == 0 {
+			v = "s" + string([]byte{b}) + "c" // scheme
+		}
+		ops := []Op{{K: "s", W: w, A: v}, {K: "s", W: w, A: string([]byte{b, b})}}
+		h, steps, start := c.cmpHist(d, defaultCfg, nil, st, ops, fields, "byte-values", i)
+		if each != nil && h != nil {
+			each(d, histCase{defaultCfg, nil, st, ops, "byte-values", i}, h, steps, start)
+		}
+	})
+}
+
 // famConfusableSetters: every setter with values in which one ASCII byte is replaced by each of its Unicode confusables
 // (fullwidth forms, digits of other scripts, Kelvin sign, long s ...), alone and followed by the plain value, on six starts
 func famConfusableSetters(c *Ctx, each func(d *Driver, cs histCase, h *implHist, steps []Step, start Obs)) {
